@@ -118,6 +118,12 @@ def chain_argspec(func_list, provides, inner_name):
     return required_sofar, optional_sofar
 
 
+# name of the function list inside generated code: must not be a name an
+# application could want injected (parameters of the generated function
+# would shadow it)
+_FUNCS_NAME = '_sinter_funcs'
+
+
 #funcs[0] = function to call
 #params[0] = parameters to take
 def build_chain_str(funcs, params, inner_name, params_sofar=None, level=0,
@@ -141,13 +147,13 @@ def build_chain_str(funcs, params, inner_name, params_sofar=None, level=0,
     #func_name = get_func_name(funcs[0])
     #func_alias = get_inner_func_alias(funcs[0])
     htb_str = '%s__traceback_hide__ = True\n' % (inner_indent,)
-    return_str = '%sreturn funcs[%s](%s)\n' % (inner_indent, level, inner_args)
+    return_str = '%sreturn %s[%s](%s)\n' % (inner_indent, _FUNCS_NAME, level, inner_args)
     return ''.join([def_str, body_str, htb_str + return_str])
 
 
 def compile_chain(funcs, params, inner_name, verbose=_VERBOSE):
     call_str = build_chain_str(funcs, params, inner_name)
-    return compile_code(call_str, inner_name, {'funcs': funcs}, verbose=verbose)
+    return compile_code(call_str, inner_name, {_FUNCS_NAME: funcs}, verbose=verbose)
 
 
 def compile_code(code_str, name, env=None, verbose=_VERBOSE):
